@@ -71,6 +71,31 @@ func init() {
 		Rules:       []func(*Ctx){ruleP7},
 	})
 	reg(&Property{
+		ID:          "C10",
+		Explanation: "TBD",
+		Rules:       []func(*Ctx){ruleP4},
+	})
+	reg(&Property{
+		ID:          "C13",
+		Explanation: "TBD",
+		Rules:       []func(*Ctx){func(c *Ctx) { ruleP10(c, "bql/table", "bql/semantic", "bql/planner") }, ruleP12},
+	})
+	reg(&Property{
+		ID:          "C14",
+		Explanation: "TBD",
+		Rules:       []func(*Ctx){func(c *Ctx) { ruleP11(c, "bql/...", "storage/...") }},
+	})
+	reg(&Property{
+		ID:          "C15",
+		Explanation: "TBD",
+		Rules:       []func(*Ctx){func(c *Ctx) { ruleL1(c, 20, "./triple/...", "./io/...") }},
+	})
+	reg(&Property{
+		ID:          "C08",
+		Explanation: "TBD",
+		Rules:       []func(*Ctx){func(c *Ctx) { ruleL1(c, 80, "./triple/...", "./io/...", "./bql/...", "./storage/...") }},
+	})
+	reg(&Property{
 		ID: "C07",
 		Explanation: "Decides, for every path of the analysed functions and hence every schedule that can drive them: S3 every access to a lock-guarded field (frozen guard table: memoryStore.graphs, the seven memory indexes, the five memoizer caches, Table rows/bindings) is made with the owner's lock held in the required mode; S4 no method re-acquires its receiver's lock through a same-receiver call; S5 every Store/Graph method with a result channel closes it exactly once on every return, error returns included; S6 no lookup (or module callee it passes the pointer to) stores through its *LookupOptions; S7 AddTriples is one critical section; S2 create/get/drop test presence under the lock. Linearizability, deadlock freedom in general and absence of all panics are NOT decided.",
 		Rules:       []func(*Ctx){ruleS3, ruleS4, ruleS5, ruleS6, ruleS7, ruleS2},
